@@ -519,6 +519,12 @@ func (m *poolModel) Apply(op []string) string {
 			m.marks[n] = op[1]
 		}
 		return "ok"
+	case "SFlush": // diagnosis only: the flush of ONE store
+		if s, ok := m.dbs[op[1]]; ok {
+			s.flush()
+			m.marks[op[1]] = op[2]
+		}
+		return "ok"
 	case "PSize":
 		t := 0
 		for _, s := range m.dbs {
@@ -611,5 +617,118 @@ func snapMid() {
 	<-flushDone
 	h = append(h, snapRec, flushRec)
 	h = append(h, do(0, "Snap"))
-	report(h, kvModel{newKvState()}, false)
+	report(h, kvModel{newKvState()}, "flushable", "")
+}
+
+// ------------------------------------------------------------------ POOLMID
+
+// gateDB: an underlying database whose batch Write reports to the gate (the data flush of one pooled store)
+type gateDB struct {
+	kvdb.Store
+	name string
+	g    *flushGate
+}
+
+type gateBatch struct {
+	kvdb.Batch
+	db *gateDB
+}
+
+func (d *gateDB) NewBatch() kvdb.Batch { return &gateBatch{d.Store.NewBatch(), d} }
+func (b *gateBatch) Write() error {
+	err := b.Batch.Write()
+	b.db.g.written(b.db.name)
+	return err
+}
+
+type flushGate struct {
+	mu      sync.Mutex
+	armed   bool
+	order   []string
+	entered chan struct{}
+	gate    chan struct{}
+}
+
+// written: called at the end of every store's data flush (the store's lock is still held); the SECOND store
+// of an armed flush blocks here: one store is flushed, this one is being flushed, the third is not yet
+func (g *flushGate) written(name string) {
+	g.mu.Lock()
+	if !g.armed {
+		g.mu.Unlock()
+		return
+	}
+	g.order = append(g.order, name)
+	second := len(g.order) == 2
+	g.mu.Unlock()
+	if second {
+		close(g.entered)
+		<-g.gate
+	}
+}
+
+type gateProducer struct {
+	mu  sync.Mutex
+	dbs map[string]kvdb.Store
+	g   *flushGate
+}
+
+func (p *gateProducer) OpenDB(name string) (kvdb.Store, error) {
+	p.mu.Lock()
+	defer p.mu.Unlock()
+	if db, ok := p.dbs[name]; ok {
+		return db, nil
+	}
+	db := &gateDB{Store: memorydb.New(), name: name, g: p.g}
+	p.dbs[name] = db
+	return db, nil
+}
+
+// poolMid: three pooled stores; SyncedPool.Flush flushes them one after the other, each under its own lock.
+// While the second one is being flushed, another goroutine writes x into the store that is ALREADY flushed and
+// then y into the store that is NOT YET flushed.  After the flush y is durable and x is not, although Put(x)
+// returned before Put(y) was called: no position of an atomic Flush explains both.
+func poolMid() {
+	g := &flushGate{entered: make(chan struct{}), gate: make(chan struct{})}
+	prod := &gateProducer{dbs: map[string]kvdb.Store{}, g: g}
+	c := &poolComp{pool: flushable.NewSyncedPool(prod, []byte("flag")), handles: map[string]storeLike{}, under: map[string]kvdb.Store{}}
+	for _, n := range []string{"a", "b", "c"} {
+		db, _ := c.pool.OpenDB(n)
+		c.handles[n] = db.(storeLike)
+		u, _ := c.pool.GetUnderlying(n)
+		c.under[n] = u
+	}
+	var h []rec
+	do := func(t int, op ...string) rec {
+		a := tick()
+		res := c.Exec(t, op)
+		b := tick()
+		return rec{t, a, b, op, res}
+	}
+	g.armed = true
+	var flushRec rec
+	flushDone := make(chan struct{})
+	go func() { flushRec = do(1, "PFlush", "f1"); close(flushDone) }()
+	<-g.entered
+	g.mu.Lock()
+	first, second := g.order[0], g.order[1]
+	g.armed = false
+	g.mu.Unlock()
+	third := ""
+	for _, n := range []string{"a", "b", "c"} {
+		if n != first && n != second {
+			third = n
+		}
+	}
+	h = append(h, do(0, "H", first, "Put", "k", "x1"))
+	h = append(h, do(0, "H", third, "Put", "k", "y1"))
+	close(g.gate)
+	<-flushDone
+	h = append(h, flushRec)
+	h = append(h, do(0, "UGet", first, "k"))
+	h = append(h, do(0, "UGet", third, "k"))
+	m := &poolModel{dbs: map[string]*kvState{}, marks: map[string]string{}}
+	for _, n := range []string{"a", "b", "c"} {
+		m.dbs[n] = newKvState()
+	}
+	report(h, m, "pool", "")
 }
